@@ -210,6 +210,44 @@ def run_many_results(ck: Check, case: dict, tmp: str):
     ck.count("one graph answering for many loaded results")
 
 
+def run_big_layer(ck: Check, case: dict, tmp: str):
+    """A stored layer (and its hash layer) with more than 2^16 rows: 70 000+ distinct start states of a 20-point graph,
+    one BFS step, saved and loaded; every field compared (vectorised), path queries on the loaded result."""
+    rng = __import__("random").Random(case["seed"])
+    n, k = 20, case["starts"]
+    gens = [[(i + 1) % n for i in range(n)], [1, 0] + list(range(2, n))]
+    codes = rng.sample(range(2**n), k)
+    starts = [[(c >> i) & 1 for i in range(n)] for c in codes]
+    g = CayleyGraph(CayleyGraphDef.create(gens, central_state=[0] * (n - 1) + [1]), bit_encoding_width=case["bit_encoding_width"], random_seed=case["random_seed"], device="cpu")
+    r = g.bfs(start_states=starts, max_diameter=1, return_all_hashes=True, max_layer_size_to_store=None)
+    f = os.path.join(tmp, "big.h5")
+    r.save(f)
+    r2 = BfsResult.load(f)
+    ck.case(["big-layer", case], True, sample={"op": "stored layer with more than 2^16 rows", "rows": [len(v) for v in r.layers.values()]})
+    ck.count("results with a stored layer above 2^16 rows")
+    bad = None
+    if list(r2.layer_sizes) != list(r.layer_sizes) or bool(r2.bfs_completed) != bool(r.bfs_completed):
+        bad = "layer sizes / completion flag differ"
+    elif sorted(r2.layers) != sorted(r.layers) or any(not np.array_equal(np.asarray(r2.layers[i]), np.asarray(r.layers[i])) for i in r.layers):
+        i = next((i for i in sorted(r.layers) if i not in r2.layers or not np.array_equal(np.asarray(r2.layers[i]), np.asarray(r.layers[i]))), None)
+        bad = f"stored layer {i} differs after the round trip"
+    elif len(r2.layers_hashes) != len(r.layers_hashes) or any(not torch.equal(a, b) for a, b in zip(r2.layers_hashes, r.layers_hashes)):
+        bad = "per-layer hashes differ after the round trip"
+    elif not (r2 == r):
+        bad = "loaded result is not equal to the original (BfsResult.__eq__)"
+    if bad:
+        ck.violation("C18/big-layer", "result with a stored layer of more than 2^16 rows: " + bad, {"case": case})
+        return
+    g2 = CayleyGraph(r2.graph, bit_encoding_width=case["bit_encoding_width"], random_seed=case["random_seed"], device="cpu")
+    for q in [starts[0], starts[k // 2], starts[-1], starts[-2]]:
+        st1, p1 = algos.call(g.find_path_to, q, r)
+        st2, p2 = algos.call(g2.find_path_to, q, r2)
+        ck.evaluations += 1
+        if st1 != st2 or p1 != p2:
+            ck.violation("C18/big-layer/path-query", f"path query on the loaded big result differs from the original: {str(p1)[:60]} vs {str(p2)[:60]}", {"case": case, "query": q})
+            return
+
+
 def gen_case(ck):
     rng = ck.rng
     for _ in range(300):
@@ -259,7 +297,7 @@ def main():
     try:
         if ck.replay:
             body = json.load(open(os.path.join(VERIF, ck.replay) if not os.path.isabs(ck.replay) else ck.replay))
-            ck.guard(run_many_results if "loads" in body["case"] else run_case, ck, body["case"], tmp)
+            ck.guard(run_many_results if "loads" in body["case"] else run_big_layer if "starts" in body["case"] and isinstance(body["case"]["starts"], int) else run_case, ck, body["case"], tmp)
             ck.finish(rule="replay of one recorded case")
         ck.lean_obligations("CvProps.C18", THEOREMS)
         for case in json.load(open(os.path.join(VERIF, "harness", "corpus", "C18.json"))):
@@ -269,6 +307,10 @@ def main():
             if ck.enough():
                 break
             ck.guard(run_case, ck, gen_case(ck), tmp)
+        for _ in range(1 if not ck.thorough else 4):
+            if ck.enough():
+                break
+            ck.guard(run_big_layer, ck, {"starts": ck.rng.choice([70000, 65537, 131073 if ck.thorough else 66000]), "seed": ck.rng.randrange(10**6), "bit_encoding_width": ck.rng.choice([None, "auto"]), "random_seed": ck.rng.choice([0, 3])}, tmp)
         for _ in range(3 if not ck.thorough else 40):
             if ck.enough():
                 break
